@@ -5,13 +5,13 @@ Applies the patch in a scratch worktree of /repo, runs the 120 tests, then the c
 import argparse, json, os, shutil, subprocess, sys, tempfile, time
 HERE = os.path.dirname(os.path.dirname(os.path.abspath(__file__)))
 ap = argparse.ArgumentParser()
-ap.add_argument('patch'); ap.add_argument('--checks', default='auto'); ap.add_argument('--tier', default='quick'); ap.add_argument('--equiv')
+ap.add_argument('patch'); ap.add_argument('--checks', default='auto'); ap.add_argument('--tier', default='quick'); ap.add_argument('--equiv'); ap.add_argument('--no-c10', action='store_true')
 a = ap.parse_args()
 props = [json.loads(l) for l in open(os.path.join(HERE, 'properties.jsonl'))]
 touched = {l.split('+++ b/')[1].strip() for l in open(a.patch, encoding='latin-1') if l.startswith('+++ b/')}
 if a.checks == 'auto':
     checks = [p['id'] for p in props if touched & set(p['anchors']['files'])]
-    if 'C10' not in checks: checks.append('C10')
+    if 'C10' not in checks and not a.no_c10: checks.append('C10')
 else:
     checks = a.checks.split(',')
 wt = tempfile.mkdtemp(prefix='benignwt-'); os.rmdir(wt)
